@@ -20,7 +20,7 @@ if [ -d "$wt" ]; then
   mkdir -p $dst
   cp /tmp/benign-$id.diff $dst/patch.diff
   cp seeded/meta.json $dst/meta.agent.json
-  test -f seeded/demo.py && sed "s#\"$wt\"#__import__('os').environ.get('ROBOTOOLS_REPO', '/repo')#; s#'$wt'#__import__('os').environ.get('ROBOTOOLS_REPO', '/repo')#" seeded/demo.py > $dst/demo.py
+  test -f seeded/demo.py && sed "s#\"$wt/\"#__import__('os').environ.get('ROBOTOOLS_REPO', '/repo')#; s#'$wt/'#__import__('os').environ.get('ROBOTOOLS_REPO', '/repo')#; s#\"$wt\"#__import__('os').environ.get('ROBOTOOLS_REPO', '/repo')#; s#'$wt'#__import__('os').environ.get('ROBOTOOLS_REPO', '/repo')#" seeded/demo.py > $dst/demo.py
   echo "$suite" > $dst/suite.txt
 fi
 cd $ROOT
